@@ -170,6 +170,7 @@ pub struct Form {
 }
 
 /// the generated table, instantiated for one concrete float type
+#[macro_export]
 macro_rules! forms_module {
     ($name:ident, $r:ty, $b:expr) => {
         pub mod $name {
